@@ -604,6 +604,8 @@ class Machine:
         if name == 'remove' and n == 2 and isinstance(a[0], dict) and isinstance(a[1], str):
             a[0].pop(a[1], None)
             return None
+        if name == 'remove' and n == 2 and isinstance(a[0], dict) and (a[1] is None or isinstance(a[1], (bool, Num))):
+            return None         # keys are strings: no key equals a number, a boolean or None (remove does not cast its argument)
         if name == 'index_of' and n == 2 and isinstance(a[0], list):
             for i, x in enumerate(a[0]):
                 if eq(x, a[1]):
